@@ -43,3 +43,62 @@ Proof.
   reflexivity.
 Qed.
 Print Assumptions C02_record_id_is_bracketed.
+
+(** * end to end: the record Build returns *)
+Require Import Gen.FieldTable Model.Validate Proofs.ValidateProofs Proofs.BuildProofs.
+
+Theorem C02_built_record_is_truthful :
+  forall uni_lower uni_upper time_ok ip_ok uri_ok wid_ok mime_dec H b32 b64 http_req_ok http_resp_ok
+         o vid rt0 hs content new_id r fnd hs_out,
+    canonical field_table uni_lower hs ->
+    (* the length and the digests are left to the builder's add-missing options *)
+    m_has field_table uni_lower n_content_length hs = false ->
+    m_has field_table uni_lower n_block_digest hs = false ->
+    m_has field_table uni_lower n_payload_digest hs = false ->
+    o_add_cl o = true -> o_add_digest o = true ->
+    o_fix_wfblock o = false ->            (* with it on: known finding stale-length-after-wfblock-repair *)
+    (forall d, new_digest uni_lower uni_upper (o_alg o) (o_enc o) = Some d -> d_hash d = []) ->
+    (Z.of_nat (length content) + 2 <= int64_max)%Z ->
+    build field_table required_fields uni_lower uni_upper time_ok ip_ok uri_ok wid_ok mime_dec H b32 b64
+          http_req_ok http_resp_ok o vid rt0 hs content new_id = (Ok r fnd, hs_out) ->
+    exists d0, new_digest uni_lower uni_upper (o_alg o) (o_enc o) = Some d0 /\
+      m_get field_table uni_lower n_content_length (r_fields r) = itoa (Z.of_nat (length (raw_bytes (r_block r)))) /\
+      m_get field_table uni_lower n_block_digest (r_fields r) = format H (feed d0 (raw_bytes (r_block r))) /\
+      ((bk (r_block r) = BHttpReq \/ bk (r_block r) = BHttpResp) -> (rt0 =? 32) = false ->
+       m_has field_table uni_lower n_segment_number hs = false ->
+       m_get field_table uni_lower n_payload_digest (r_fields r) = format H (feed d0 (bb (r_block r)))).
+Proof. intros. eapply build_truthful; eassumption. Qed.
+Print Assumptions C02_built_record_is_truthful.
+
+(** non-vacuity: an HTTP response fed to a builder with the default add-missing options; the
+    hypotheses hold and Build succeeds *)
+From Coq Require Import String.
+Local Open Scope N_scope.
+Definition c2_id (s : bytes) := s.
+Definition c2_yes (s : bytes) := true.
+Definition c2_h (a : alg) (s : bytes) : bytes := s.
+Definition c2_nodec (s : bytes) : option bytes := None.
+Definition c2_opts := mkopts Warn Warn Warn Warn false true true true true true false false (bs "sha1") Base32.
+Definition c2_hs : fields :=
+  [(bs "WARC-Type", bs "response"); (bs "WARC-Date", bs "2017-03-06T04:03:53Z");
+   (bs "WARC-Target-URI", bs "http://example.com/a"); (bs "Content-Type", bs "application/http;msgtype=response")]%string.
+Definition c2_content : bytes := bs "HTTP/1.1 200 OK
+Content-Type: text/plain
+
+hello"%string.
+Definition c2_build := build field_table required_fields c2_id c2_id c2_yes c2_yes c2_yes c2_yes c2_nodec c2_h c2_nodec c2_nodec
+                             c2_yes c2_yes c2_opts 2 2 c2_hs c2_content (bs "urn:uuid:e9a0cecc-0221-11e7-adb1-0242ac120008").
+Example C02_hypotheses_are_satisfiable :
+  canonical field_table c2_id c2_hs /\
+  m_has field_table c2_id n_content_length c2_hs = false /\
+  (forall d, new_digest c2_id c2_id (o_alg c2_opts) (o_enc c2_opts) = Some d -> d_hash d = []) /\
+  is_ok (fst c2_build) = true /\
+  match fst c2_build with Ok r _ => bk (r_block r) = BHttpResp | _ => False end.
+Proof.
+  split; [|split; [|split; [|split]]].
+  - intros f [<-|[<-|[<-|[<-|[]]]]]; vm_compute; reflexivity.
+  - vm_compute; reflexivity.
+  - intros d Hd. vm_compute in Hd. inversion Hd. reflexivity.
+  - vm_compute; reflexivity.
+  - vm_compute; reflexivity.
+Qed.
